@@ -481,4 +481,49 @@ def netNames : Kind → List String
   | .pos => ["rbm_am"]
   | _ => ["rbm_am", "rbm_ph"]
 
+
+/-- an entry of a `state_dict` with given names and shapes -/
+theorem aget_of_shapesOf (sd : SD) (L : List (String × Shape)) (hs : shapesOf sd = L)
+    (hn : (L.map Prod.fst).Nodup) (nm : String) (sh : Shape) (hm : (nm, sh) ∈ L) :
+    ∃ tok, aget sd nm = some (sh, tok) := by
+  induction sd generalizing L with
+  | nil => simp [shapesOf] at hs; subst hs; simp at hm
+  | cons e r ih =>
+    obtain ⟨n0, s0, t0⟩ := e
+    cases L with
+    | nil => simp [shapesOf] at hs
+    | cons l0 Lr =>
+      simp only [shapesOf, List.map_cons, List.cons.injEq] at hs
+      obtain ⟨h0, hr⟩ := hs
+      simp only [List.map_cons, List.nodup_cons] at hn
+      rcases List.mem_cons.1 hm with h1 | h1
+      · subst h1
+        simp only [Prod.mk.injEq] at h0
+        exact ⟨t0, by simp [aget_cons, h0.1, h0.2]⟩
+      · obtain ⟨tok, ht⟩ := ih Lr hr hn.2 h1
+        have hne : n0 ≠ nm := by
+          intro e
+          have : nm ∈ Lr.map Prod.fst := List.mem_map.2 ⟨(nm, sh), h1, rfl⟩
+          rw [← h0] at hn
+          exact hn.1 (by simpa [e] using this)
+        exact ⟨tok, by simp [aget_cons, hne, ht]⟩
+
+/-- the bias lengths `autoload` reads from a `state_dict` of a network of sizes `(nv, nh, na)` -/
+theorem lenOf_of_shapes (k : NetKind) (nv nh na : Nat) (sd : SD)
+    (hs : shapesOf sd = shapesOf (paramSpecs k nv nh na [])) :
+    lenOf (.sd sd) "visible_bias" = .ok nv ∧ lenOf (.sd sd) "hidden_bias" = .ok nh ∧
+    (k = .purif → lenOf (.sd sd) "aux_bias" = .ok na) := by
+  have hn : ((shapesOf (paramSpecs k nv nh na [])).map Prod.fst).Nodup := by
+    cases k <;> simp [shapesOf, paramSpecs]
+  have get := aget_of_shapesOf sd _ hs hn
+  refine ⟨?_, ?_, ?_⟩
+  · obtain ⟨t, ht⟩ := get "visible_bias" [nv] (by cases k <;> simp [shapesOf, paramSpecs])
+    simp [lenOf, ht]
+  · obtain ⟨t, ht⟩ := get "hidden_bias" [nh] (by cases k <;> simp [shapesOf, paramSpecs])
+    simp [lenOf, ht]
+  · intro hk
+    subst hk
+    obtain ⟨t, ht⟩ := get "aux_bias" [na] (by simp [shapesOf, paramSpecs])
+    simp [lenOf, ht]
+
 end QV.Store
